@@ -53,7 +53,8 @@ impl View {
     }
 }
 
-fn chain_ok(v: &View, path: &[Tri], from: usize, to: usize, nodes: &[usize], len: usize) -> Result<(), String> {
+fn chain_ok(v: &View, path: &[Tri], from: usize, to: usize, out: &crate::exec_ext::SearchOut) -> Result<(), String> {
+    let (nodes, len) = (out.path_nodes.as_slice(), out.path_len);
     if path.is_empty() {
         return Err("the returned path has no edge".into());
     }
@@ -78,6 +79,18 @@ fn chain_ok(v: &View, path: &[Tri], from: usize, to: usize, nodes: &[usize], len
     }
     let mut expect = vec![path[0].0];
     expect.extend(path.iter().map(|t| t.1));
+    if out.first_node != Some(from) {
+        return Err(format!("Path::first_node() = {:?} but the path starts at the root {}", out.first_node, from));
+    }
+    if out.last_node != Some(to) {
+        return Err(format!("Path::last_node() = {:?} but the path ends at {}", out.last_node, to));
+    }
+    if out.first_edge.as_ref() != path.first() || out.last_edge.as_ref() != path.last() {
+        return Err(format!("first_edge() / last_edge() = {:?} / {:?} are not the first and last edge of {:?}", out.first_edge, out.last_edge, path));
+    }
+    if out.views != "ok" {
+        return Err(format!("iter_edges / Index / iter_nodes disagree with to_vec_edges / to_vec_nodes: {}", out.views));
+    }
     if nodes != expect.as_slice() {
         return Err(format!("to_vec_nodes {:?} does not list the endpoints of the path edges {:?}", nodes, expect));
     }
@@ -198,7 +211,7 @@ pub fn check(directed: bool, ls: &Lists, vals: &[(usize, i64)], spec: &SearchSpe
                         Some(p) => {
                             if !reachable {
                                 fails.push((name.into(), format!("{} search_path: target {t} is not reachable from {root} but a path {:?} was returned", spec.kind, p)));
-                            } else if let Err(m) = chain_ok(&v, p, root, t, &out.path_nodes, out.path_len) {
+                            } else if let Err(m) = chain_ok(&v, p, root, t, out) {
                                 fails.push((name.into(), format!("{} search_path {root}->{t}: {m}", spec.kind)));
                             } else {
                                 if spec.kind == "bfs" && p.len() != dist[&t] {
@@ -291,7 +304,7 @@ pub fn check(directed: bool, ls: &Lists, vals: &[(usize, i64)], spec: &SearchSpe
             (None, Some(n)) => fails.push((name.into(), format!("{} search_cycle from {root}: a closed walk of {n} accepted edge(s) exists but None was returned", spec.kind))),
             (Some(p), None) => fails.push((name.into(), format!("{} search_cycle from {root}: no way back to the root exists but {:?} was returned", spec.kind, p))),
             (Some(p), Some(n)) => {
-                if let Err(m) = chain_ok(&v, p, root, root, &out.path_nodes, out.path_len) {
+                if let Err(m) = chain_ok(&v, p, root, root, out) {
                     fails.push((name.into(), format!("{} search_cycle from {root}: {m}", spec.kind)));
                 } else if directed {
                     let inner: Vec<usize> = p.iter().skip(1).map(|t| t.0).collect();
